@@ -17,7 +17,7 @@ import (
 // RecOpts are the switches of artifact recording.
 type RecOpts struct {
 	Algs       []string
-	Exclude    []string // only "*.<ext>" and plain basenames are supported by the reference
+	Exclude    []string // only "*.<ext>", plain basenames and spelled-out relative file paths are supported by the reference
 	Strip      []string
 	Normalize  bool
 	FollowDirs bool
@@ -38,6 +38,12 @@ func (r *recorder) excluded(path string) bool {
 	for _, p := range r.o.Exclude {
 		if strings.HasPrefix(p, "*.") {
 			if strings.HasSuffix(base, p[1:]) {
+				return true
+			}
+		} else if strings.Contains(p, "/") {
+			// a relative path of a file, spelled out: excludes exactly that walked path (decided on the
+			// path as walked, before any prefix is stripped)
+			if path == p {
 				return true
 			}
 		} else if base == p {
